@@ -42,8 +42,10 @@ def proj(v):
     return {"t": "host", "d": type(v).__name__}
 
 
-def run_source(api, src, time_limit=TIME_LIMIT_STEPS, cap=400000, wall=30.0):
+def run_source(api, src, time_limit=TIME_LIMIT_STEPS, cap=400000, wall=30.0, pre=()):
     ctx = api.new_context(time_limit=time_limit)
+    for name in pre:              # globals the host provides, set to 0 before the script runs (C05!ProgPre)
+        ctx.set(name, 0)
     log = []
 
     def host_log(*a):
@@ -68,7 +70,7 @@ def run_source(api, src, time_limit=TIME_LIMIT_STEPS, cap=400000, wall=30.0):
 
 def driver(case, api):
     src, pos = R.render(case["prog"], case.get("dl", 0), case.get("dc", 0))
-    log, out = run_source(api, src, wall=case.get("wall", 30.0))
+    log, out = run_source(api, src, wall=case.get("wall", 30.0), pre=case["prog"].get("pre", ()))
     res = {"id": case["id"], "log": log, "out": out,
            "pos": [[int(n)] + list(lc) for n, lc in sorted(pos.items(), key=lambda kv: int(kv[0]))]}
     if case.get("want_src"):
